@@ -44,6 +44,13 @@ def tasks(ctx, quick):
         c.update(fluence=1e8, exposure=1.0, rests=[0], cd=0.0, fast_ratio=0.0, mass=10.0)
         items.append({"id": "t%d" % len(items), "kind": "decay", "formula": f, "cond": c, "restlists": [[0], rests],
                       "targets": [0.5, 0.1, 0.9]})
+    # weakly activated samples: the targets are tiny numbers of uCi (1e-9 of 1e-5 uCi), far below anything the solver's
+    # absolute tolerances know about; the answer is for the target that was asked for, or RuntimeError
+    for f, m in (("Al", 1e-3), ("Na", 1e-3), ("Mn", 1e-2), ("V", 1e-3), ("Al", 1e-6), ("NaCl", 1e-4)):
+        c = conditions(rng)
+        c.update(fluence=1e5, exposure=1.0, rests=[0], cd=0.0, fast_ratio=0.0, mass=m)
+        items.append({"id": "t%d" % len(items), "kind": "decay", "formula": f, "cond": c, "restlists": [[0], [0, 1, 24]],
+                      "targets": [1e-3, 1e-6, 1e-7, 1e-8, 1e-9]})
     # half-lives corrected by the owner of the table before the calculation
     for f in ("Mn", "Co", "Al2O3", "NaCl"):
         c = conditions(rng)
